@@ -9,6 +9,8 @@ import (
 	"crypto/x509/pkix"
 	"encoding/pem"
 	"fmt"
+	grpcapi "github.com/attestantio/dirk/services/api/grpc"
+	"github.com/attestantio/dirk/services/checker"
 	"math/big"
 	"net"
 	"os"
@@ -498,16 +500,72 @@ func cmdTLS(args []string) int {
 		conn.Close()
 	}
 
+	// ---- a server with NO certificate authority configured serves nobody ----
+	var noCALines []string
+	{
+		port3 := freePort()
+		nperms := map[string][]*checker.Permissions{"client-test01": {{Path: "Wallet 1", Operations: []string{"All"}}}}
+		n3, err := NewNode(ctx, NodeOpts{ID: 1, NDWallets: []string{"Wallet 1"}, Perms: nperms, PeersMap: map[uint64]string{1: fmt.Sprintf("signer-test01:%d", port3)}})
+		if err != nil {
+			fmt.Fprintln(os.Stderr, "node:", err)
+			return 2
+		}
+		if _, err := grpcapi.New(ctx, grpcapi.WithSigner(n3.Signer), grpcapi.WithLister(n3.Lister), grpcapi.WithProcess(n3.Process),
+			grpcapi.WithAccountManager(n3.AcctMgr), grpcapi.WithWalletManager(n3.WalMgr), grpcapi.WithPeers(n3.Peers),
+			grpcapi.WithName("signer-test01"), grpcapi.WithID(1), grpcapi.WithServerCert(resources.SignerCerts[1]), grpcapi.WithServerKey(resources.SignerKeys[1]),
+			grpcapi.WithListenAddress(fmt.Sprintf("127.0.0.1:%d", port3))); err != nil {
+			fmt.Fprintln(os.Stderr, "api without CA:", err)
+			return 2
+		}
+		addr3 := fmt.Sprintf("127.0.0.1:%d", port3)
+		for i := 0; i < 100; i++ {
+			if c, err := net.DialTimeout("tcp", addr3, 200*time.Millisecond); err == nil {
+				c.Close()
+				break
+			}
+			time.Sleep(50 * time.Millisecond)
+		}
+		for _, ki := range []int{1, 2, 3, 5} { // no certificate, self-signed, another authority, the genuine client certificate
+			k := kinds[ki]
+			opt, _ := k.Creds()
+			conn, err := grpc.NewClient(addr3, opt)
+			if err != nil {
+				return 2
+			}
+			cctx, ccancel := context.WithTimeout(ctx, 10*time.Second)
+			r, err := pb.NewListerClient(conn).ListAccounts(cctx, &pb.ListAccountsRequest{Paths: []string{"Wallet 1"}})
+			ccancel()
+			served := err == nil || status.Code(err) != codes.Unavailable
+			id++
+			noCALines = append(noCALines, fmt.Sprintf(" TC %s %s %s %s", coqN(id), k.Coq, coqStr("Lister.ListAccounts"), coqBool(served)))
+			idx[fmt.Sprint(id)] = fmt.Sprintf("server WITHOUT a configured authority: Lister.ListAccounts called by [%s]: served=%v %v", k.Name, served, err)
+			stats[fmt.Sprintf("no-ca.served=%v", served)]++
+			if served {
+				monFail = append(monFail, fmt.Sprintf("a server with no certificate authority configured served Lister.ListAccounts to a caller with [%s] (%d accounts)", k.Name, len(r.GetAccounts())))
+			}
+			conn.Close()
+		}
+	}
+
 	var b strings.Builder
 	b.WriteString("From DV Require Import Corr.CheckTls.\nLocal Open Scope string_scope.\n")
 	fmt.Fprintf(&b, "Definition cases : list tcase := [\n%s].\n", strings.Join(lines, ";\n"))
+	{
+		var b2 strings.Builder
+		b2.WriteString("From DV Require Import Corr.CheckTls.\nLocal Open Scope string_scope.\n")
+		fmt.Fprintf(&b2, "Definition cases : list tcase := [\n%s].\n", strings.Join(noCALines, ";\n"))
+		b2.WriteString("Definition M := Eval vm_compute in tmismatches_ca 9 cases.\nPrint M.\n")
+		if err := os.WriteFile(filepath.Join(cf.out, "cases_C19_1.v"), []byte(b2.String()), 0o644); err != nil {
+			return 2
+		}
+	}
 	b.WriteString("Definition M := Eval vm_compute in tmismatches cases.\nPrint M.\n")
 	if err := os.WriteFile(filepath.Join(cf.out, "cases_C19_0.v"), []byte(b.String()), 0o644); err != nil {
 		return 2
 	}
 	sum := &Summary{Property: "C19", Seed: cf.seed, Tier: cf.tier, Evaluations: len(lines), Distinct: len(lines),
 		Rule:      "a daemon from testing/daemon.New listening on 127.0.0.1; every method of every registered service (Signer x5, Lister, AccountManager x3, WalletManager x2, DKG x5) called over a real connection with every kind of caller credential: no TLS, TLS without client certificate, self-signed, another authority (bearing a permitted client name / a peer name), valid certificates of each permitted client, of a peer, of a non-peer, TLS 1.2 with a valid certificate, and - issued by the harness under the configured authority's test key - an expired one, one for server use only, a fresh valid one; served / refused compared with the gate of Tls.v; signatures, account lists and state changes for refused callers reported; the identity used for permissions probed per valid certificate; final listing shows no account created for a refused caller",
-		Histories: len(kinds), Distribution: stats, Samples: samples, MonitorFailures: monFail, CaseFiles: []string{"cases_C19_0.v"}, CaseIndex: idx}
+		Histories: len(kinds), Distribution: stats, Samples: samples, MonitorFailures: monFail, CaseFiles: []string{"cases_C19_0.v", "cases_C19_1.v"}, CaseIndex: idx}
 	if err := writeSummary(cf.out, sum); err != nil {
 		return 2
 	}
